@@ -37,7 +37,14 @@ RULE = (
     "3e-9 .. 2e-8 of the output scale apart - and all within a few 1e-8 of 0 (tiny positive values under MaxAbs / Sum / Vector; next to "
     "the mean, or next to 0 without centring, under StandarScaler; next to the pre-image of 0 under a MinMaxScaler range that holds 0) "
     "or of the lower end of the range; one member at times exactly on the point (the minimum itself); the scaler alone (2/3) or followed "
-    "by 1..2 further steps (1/3). Thorough adds (c) the exhaustive set: every matrix of shape "
+    "by 1..2 further steps (1/3). (e) HISTORIES on one decision matrix object (120 quick, a loop of its own): after the dominance tables of "
+    "dm were read, dm.copy(objectives=<flipped on a random non-empty subset of the criteria>) (1/3), dm.copy(matrix=<other values: the "
+    "rows of dm permuted or fresh cells of the same shape, dtypes and sign domain, at least one pair ordered differently on some "
+    "criterion>) (1/3) or both (1/3) is called and the copy thrown away; THEN the pipeline is applied to dm itself and judged against "
+    "dm's own objectives and values: a single objective inverter / every transformer in turn (1/2), or a sequence as in (b) (1/2, with an "
+    "objective inverter appended when the replaced part is the objectives and the sequence holds none); built by hand / mkpipe / "
+    "SKCPipeline as everywhere; where a second decision matrix goes through the same objects it has its own what-if copy one time in "
+    "two. Thorough adds (c) the exhaustive set: every matrix of shape "
     "<= 3 x 2 over {-1,0,1,2} ({1,2} for the positive-data transformers) x every objective vector x every transformer, and again "
     "with ALL criteria int64 (and, two criteria, int64 next to float64): {1,2,3} for the positive-data transformers up to 3 x 2, "
     "{-1,0,1,2} up to 4 cells. "
@@ -287,16 +294,68 @@ def finish(rng, kind, dm, steps, positive, wpositive):
     return case
 
 
-def single_case(rng, cfg):
+INVERTERS = ("NegateMinimize", "InvertMinimize")
+HISTORY_MODES = ("objectives", "matrix", "both")
+
+
+def what_if(rng, dm, pipe, mode):
+    """the replacement handed to dm.copy(**replacement) BEFORE the pipeline sees dm (the copy is thrown away): objectives flipped on a
+    random non-empty subset of the criteria (mode objectives / both) and / or a matrix of the same shape and dtypes holding OTHER
+    values (mode matrix / both): the rows of dm permuted (1/2) or freshly drawn cells (1/2), such that at least one pair of
+    alternatives is ordered differently on some criterion than in dm, and inside the sign domain of the pipeline as well.  None if no
+    such replacement was drawn"""
+    A, objs = dm["matrix"], dm["objectives"]
+    m, n = len(A), len(objs)
+    h = {"mode": mode}
+    if mode in ("objectives", "both"):
+        flip = set(rng.sample(range(n), rng.randint(1, n)))
+        h["objectives"] = [-o if j in flip else o for j, o in enumerate(objs)]
+    if mode in ("matrix", "both"):
+        positive = all(v > 0 for r in A for v in r)
+        dtypes = dm.get("dtypes") or ["float"] * n
+        for _ in range(40):
+            if rng.random() < 0.5:
+                perm = list(range(m))
+                rng.shuffle(perm)
+                B = [list(A[i]) for i in perm]
+            else:
+                B = whole(matrix(rng, m, n, dm["family"], positive, h.get("objectives", objs)), dtypes, positive)
+            other_order = any(sign(A[a][j] - A[b][j]) != sign(B[a][j] - B[b][j]) for j in range(n) for a in range(m) for b in range(a + 1, m))
+            if other_order and domain_ok(pipe, dict(dm, matrix=B, objectives=h.get("objectives", objs))):
+                h["matrix"] = B
+                break
+        else:
+            return None
+    return h
+
+
+def with_history(rng, case, mode):
+    """the decision matrix of the case (and, one time in two, the second one as well) has served as the base of a what-if copy before
+    the transformers see it: case["history"][k] is the replacement for the k-th decision matrix of the case (None = no copy made)"""
+    pipe = case["pipelines"][0]
+    hist = []
+    for k, dm in enumerate(case_dms(case)):
+        hist.append(what_if(rng, dm, pipe, mode if k == 0 else rng.choice(HISTORY_MODES)) if k == 0 or rng.random() < 0.5 else None)
+    if hist[0] is None:
+        return None
+    case["history"] = hist
+    return case
+
+
+def single_case(rng, cfg, history=None):
     step = concrete(rng, cfg)
     needs_pos = step["name"] in POS_ONLY or step["name"] == "InvertMinimize"
     positive, wpositive = needs_pos or rng.random() < 0.3, needs_pos or rng.random() < 0.6
     dm = base_dm(rng, positive=positive, wpositive=wpositive)
+    if history is not None:
+        return with_history(rng, finish(rng, "hist", dm, [step], positive, wpositive), history)
     return finish(rng, "single", dm, [step], positive, wpositive)
 
 
-def sequence_case(rng, by_name, chained=False):
-    """chained: the data starts OUTSIDE the positive domain and a prefix of the sequence establishes it (MinMaxScaler onto a positive
+def sequence_case(rng, by_name, chained=False, with_inverter=False, history=None):
+    """with_inverter: a sequence without an objective inverter gets one appended (InvertMinimize where the matrix is positive at
+    that point, NegateMinimize otherwise); history: see what_if.
+    chained: the data starts OUTSIDE the positive domain and a prefix of the sequence establishes it (MinMaxScaler onto a positive
     range, or PushNegatives then AddValueToZero with a positive value); the steps that follow are drawn with the positive-data
     transformers (InvertMinimize, SumScaler, VectorScaler, MaxAbsScaler) favoured: their domain holds only because of the earlier steps"""
     names = sorted(by_name)
@@ -331,6 +390,10 @@ def sequence_case(rng, by_name, chained=False):
         else:
             break
         push(concrete(rng, cfg))
+    if with_inverter and not any(st["name"] in INVERTERS for st in steps):
+        push({"name": "InvertMinimize" if mst == "pos" and rng.random() < 0.5 else "NegateMinimize", "target": "matrix", "params": {}})
+    if history is not None:
+        return with_history(rng, finish(rng, "hist", dm, steps, positive, wpositive), history)
     return finish(rng, "chain" if chained else "seq", dm, steps, positive, wpositive)
 
 
@@ -531,6 +594,33 @@ def gen(ctx):
         case = tiny_case(rng, lst[(i // len(TINY_NAMES)) % len(lst)], by_name)
         if case is not None:
             cases.append(case)
+    # (e) HISTORIES: dm.copy(objectives=... / matrix=...) on the decision matrix (the copy is thrown away), THEN the pipeline on dm
+    # itself.  A fixed share of every run: mode objectives -> a single inverter / a sequence that holds an inverter (the steps that
+    # read the objectives); mode matrix / both -> every transformer in turn / sequences
+    inv = [c for c in cfgs if c[0] in INVERTERS]
+    inv = [next(c for c in inv if c[0] == nm) for nm in INVERTERS]
+    k, want = 0, ctx.n(120, 600)
+    for i in range(4 * want):
+        if k >= want:
+            break
+        r = i % 6
+        if r == 0:
+            case = single_case(rng, inv[(i // 6) % 2], history="objectives")
+        elif r == 1:
+            lst = by_name[names[(i // 6) % len(names)]]
+            case = single_case(rng, lst[(i // (6 * len(names))) % len(lst)], history="matrix")
+        elif r == 2:
+            case = sequence_case(rng, by_name, chained=(i // 6) % 3 == 2, with_inverter=True, history="objectives")
+        elif r == 3:
+            case = sequence_case(rng, by_name, chained=(i // 6) % 3 == 2, history="matrix")
+        elif r == 4:
+            case = sequence_case(rng, by_name, chained=(i // 6) % 3 == 2, with_inverter=True, history="both")
+        else:
+            lst = by_name[names[(i // 6 + 5) % len(names)]]
+            case = single_case(rng, lst[(i // (6 * len(names))) % len(lst)], history="both")
+        if case is not None:
+            cases.append(case)
+            k += 1
     if ctx.thorough:
         cases += exhaustive_cases()
     return cases
@@ -576,13 +666,31 @@ def _run(cur):
             "finite": bool(np.all(np.isfinite(mat))), "after": _tables(cur)}
 
 
+def apply_history(dm, h, dtypes=None):
+    """the documented what-if call on a decision matrix: dm.copy(<replacement>); the copy is thrown away"""
+    kw = {}
+    if h.get("objectives") is not None:
+        kw["objectives"] = list(h["objectives"])
+    if h.get("matrix") is not None:
+        arr = np.array(h["matrix"], dtype=float)
+        kw["matrix"] = arr.astype(np.int64) if dtypes and all(t == "int" for t in dtypes) else arr
+    dm.copy(**kw)
+
+
 def observe(case):
-    """runs: for every pipeline, for every decision matrix of the case (the second one goes through the SAME objects as the first),
+    """history (if any): dm.copy(<replacement>) on the decision matrices of the case, after their dominance tables were read and
+    before any transformer sees them.  runs: for every pipeline, for every decision matrix of the case (the second one goes through the SAME objects as the first),
     the output of the pipeline.  Built as an object (SKCPipeline / mkpipe): `by_hand` is the output of the same steps applied one
     after the other with fresh transformers to that matrix alone"""
     with M.quiet():
         dms = [c11.mkdm(d) for d in case_dms(case)]
         out = {"before": _tables(dms[0]), "before_all": [_tables(d) for d in dms], "runs": []}
+        for d, src, h in zip(dms, case_dms(case), case.get("history") or []):
+            if h:
+                try:
+                    apply_history(d, h, src.get("dtypes"))
+                except Exception as e:
+                    out["history_err"] = {"err": G.err_name(e), "msg": str(e)[:200]}
         for k, pipe in enumerate(case["pipelines"]):
             names = (case.get("names") or [None] * len(case["pipelines"]))[k]
             try:
@@ -779,12 +887,19 @@ def judge(case, obs, replies):
     def corr(what, expected=None, observed=None):
         out.append({"kind": "correspondence", "what": what, "expected": expected, "observed": observed})
 
+    history = case.get("history") or []
+    if obs.get("history_err"):
+        corr("the what-if copy dm.copy(<replacement>) made before the pipeline raised " + obs["history_err"]["err"] + ": "
+             + str(obs["history_err"].get("msg")), "a copy", obs["history_err"]["err"])
     for run, rep in zip(obs["runs"], replies):
         pipe, names, which = case["pipelines"][run.get("pipe", 0)], all_names[run.get("pipe", 0)], run.get("which", 0)
         # every output is judged against ITS OWN input
         A, o = dms[which]["matrix"], dms[which]["objectives"]
         m = len(A)
         label = describe(pipe, names)
+        if which < len(history) and history[which]:
+            label += (" [applied to a decision matrix AFTER dm.copy(%s=...) was called on it (the copy thrown away); judged against "
+                      "the matrix's own objectives and values]" % "=..., ".join(x for x in ("objectives", "matrix") if history[which].get(x) is not None))
         if which:
             label += " [second decision matrix through the same transformer objects: same criteria labels, other objectives]"
         if "err" in run:
@@ -878,6 +993,11 @@ def tags(case, obs):
         if case.get("second"):
             t.append("second:" + ("same-cells" if case["second"]["matrix"] == dm["matrix"] else "other-cells"))
         t.append("len=%d" % k)
+        for w, h in enumerate(case.get("history") or []):
+            if h:
+                t.append("history:%s-dm:copy(%s)" % ("first" if w == 0 else "second", h["mode"]))
+        if case.get("history"):
+            t.append("history:" + ("pipeline-reads-objectives" if any(s["name"] in INVERTERS for s in case["pipelines"][0]) else "no-inverter-step"))
         for s in case["pipelines"][0]:
             t.append("step:" + s["name"])
             t.append("target:" + s["target"])
